@@ -69,6 +69,9 @@ def run(ctx) -> None:
         ctx.check(ok, "C09.N3.split-regex", "LineParser.get_splitted_operands", why,
                   "operands are split at every ',' that is not followed by [^(]* ')' (i.e. not inside parentheses), "
                   "on the whole operand text, without a split limit")
+    # N4 every line's operands come from that line
+    from ._parser import lines_parsed_independently
+    lines_parsed_independently(ctx, "C09.N4.lines-parsed-independently")
     # N3b operand token class
     paths, sites, pats = instr_patterns(I)
     for pat, roles in pats.items():
